@@ -43,7 +43,7 @@ Definition prev_ok (prev : option (Z * Z)) : Prop :=
 Lemma basic_byte_facts : forall b, basic_byte b -> 32 <= b mod 128 /\ cea_basic (b mod 128) = Some (dec_byte b).
 Proof.
   intros b [c H]. unfold dec_byte. rewrite H. split; [|reflexivity].
-  unfold cea_basic in H. destruct ((b mod 128 <? 32) || (126 <? b mod 128)) eqn:E; [discriminate|]. lia.
+  unfold cea_basic in H. destruct ((b mod 128 <? 32) || (127 <? b mod 128)) eqn:E; [discriminate|]. lia.
 Qed.
 
 Lemma decode_text_word : forall a b t prev r txt rows c1,
@@ -60,7 +60,7 @@ Proof.
     (if is_control (a, b) then
        if match prev with Some p => w_eqb p (a, b) | None => false end then decode_body t None ((r, txt) :: rows)
        else match pac_row (fst (a, b)) (snd (a, b)), pac_indent (snd (a, b)) with
-            | Some r0, Some 0 => decode_body t (Some (a, b)) ((r0, []) :: (r, txt) :: rows)
+            | Some r0, Some k => decode_body t (Some (a, b)) ((r0, repeat 32 (Z.to_nat k)) :: (r, txt) :: rows)
             | _, _ => None
             end
      else
